@@ -426,3 +426,126 @@ def r6_sign_division(ctx):
 
 
 RULES += [r6_sign_division]
+
+
+# ------------------------------------------------------------------ dis_interval: the element list of a TOP / BOT value is never iterated
+DI_FILES = (("include/crab/domains/dis_interval_impl.hpp", "m_list"), ("include/crab/domains/dis_intervals.hpp", "_list"))
+
+
+def _reached(n, val, targets, out):
+    """interpret statement n; collect ids of `targets` nodes that are evaluated; returns False when control cannot continue"""
+    if not isinstance(n, dict):
+        return True
+    k = n.get("k")
+    if k == "seq":
+        for x in n.get("b", []):
+            if not _reached(x, val, targets, out):
+                return False
+        return True
+    if k == "if":
+        _collect(n.get("c"), targets, out, val)
+        c = _eval3b(n.get("c"), val)
+        if c is True:
+            return _reached(n.get("t"), val, targets, out)
+        if c is False:
+            return _reached(n.get("e"), val, targets, out) if "e" in n else True
+        a = _reached(n.get("t"), val, targets, out)
+        b = _reached(n.get("e"), val, targets, out) if "e" in n else True
+        return a or b
+    if k in ("ret", "throw"):
+        _collect(n.get("v"), targets, out, val)
+        return False
+    if k in ("for", "while", "do", "rangefor"):
+        for key in ("i", "c", "s", "r", "v"):
+            _collect(n.get(key), targets, out, val)
+        _reached(n.get("b"), val, targets, out)
+        return True
+    if k in ("break", "continue", "goto"):
+        return True
+    if k == "label":
+        return _reached(n.get("b"), val, targets, out)
+    _collect(n, targets, out, val)
+    return True
+
+
+def _collect(e, targets, out, val):
+    if e is None:
+        return
+    for x in walk(e):
+        if id(x) in targets:
+            out.add(id(x))
+
+
+def r7_list_typestate(ctx):
+    ctx.rule("C08.r7", "dis_interval: TOP and BOT are represented by an EMPTY interval list, so a loop over the list of an operand "
+             "that may be TOP / BOT computes the answer for the empty set; every such loop is reached only for finite operands "
+             "(enumeration of the 3 states of each operand)", floor=6)
+    import itertools
+    n_fn = 0
+    for f, lst in DI_FILES:
+        if not ctx.db.has_file(f):
+            continue
+        for fn in ctx.db.fns(f):
+            if not (fn.get("cpk") or "").endswith("::dis_interval") or fn.get("ctor"):
+                continue
+            body = fn["body"]
+            # iterated / indexed list accesses:  O.list[i]  or  O.list.size() inside a loop header
+            loops = [l for l in walk(body) if l.get("k") in ("for", "while", "do", "rangefor")]
+            in_header = set()
+            for l in loops:
+                for key in ("c", "r", "i", "s"):
+                    for x in walk(l.get(key)):
+                        in_header.add(id(x))
+            acc = {}
+            for x in walk(body):
+                if x.get("k") == "mem" and x.get("n") == lst and id(x) in in_header:
+                    b = x.get("b")
+                    bb = deref(b)
+                    if not is_this(b) and not (isinstance(bb, dict) and bb.get("k") == "ref" and bb.get("rk") == "param"):
+                        continue          # a local copy: its state is a function of the operands', not an independent one
+                    name = "this" if is_this(b) else src(b)
+                    acc[id(x)] = (x, name)
+            if not acc:
+                continue
+            objs = sorted({nm for _, nm in acc.values()})
+            bool_params = [p for p in fn.get("params", []) if (p.get("T") or "") == "bool"]
+            n_fn += 1
+            bad = None
+            for states in itertools.product(("BOT", "TOP", "FIN"), repeat=len(objs)):
+                st = dict(zip(objs, states))
+                for bvals in itertools.product((False, True), repeat=len(bool_params)):
+                    bv = {p["id"]: v for p, v in zip(bool_params, bvals)}
+
+                    def val(c, st=st, bv=bv):
+                        if c.get("k") == "ref" and c.get("id") in bv:
+                            return bv[c["id"]]
+                        if c.get("k") == "call" and callee(c) and callee(c)["name"] in ("is_top", "is_bottom", "is_finite") and not c.get("a"):
+                            o = c.get("o")
+                            nm = "this" if (o is None or is_this(deref(o))) else src(o)
+                            if nm in st:
+                                return {"is_top": st[nm] == "TOP", "is_bottom": st[nm] == "BOT", "is_finite": st[nm] == "FIN"}[callee(c)["name"]]
+                        return None
+                    out = set()
+                    _reached(body, val, set(acc.keys()), out)
+                    for i in out:
+                        x, nm = acc[i]
+                        if st[nm] != "FIN":
+                            bad = (x, nm, st[nm], dict(st))
+                            break
+                    if bad:
+                        break
+                if bad:
+                    break
+            if bad:
+                x, nm, state, st = bad
+                ctx.bad("dis_interval::%s iterates over the interval list of `%s` on a path where `%s` is %s (states: %s): the list of a %s "
+                        "value is empty, so the loop is vacuous and the result is the one for the empty set (e.g. top <= [0,1] answers "
+                        "yes)" % (fn["name"], nm, nm, state, ", ".join("%s=%s" % kv for kv in sorted(st.items())), state), fn, x,
+                        sig="list-typestate:%s:%s:%s" % (fn["name"], nm, state))
+            else:
+                ctx.ok("%s: list loops only for finite operands" % fn["name"], fn, body)
+    if n_fn == 0:
+        ctx.fail("rule C08.r7: no loop over an interval list found in dis_interval")
+
+
+RULES += [r7_list_typestate]
